@@ -64,6 +64,15 @@ var neverNil = map[string]bool{
 	"fmt.Errorf":                                                 true,
 }
 
+// errFilterArg: functions that return nil or the error passed at this index.
+var errFilterArg = map[string]int{
+	"github.com/crossplane/crossplane-runtime/pkg/resource.IgnoreNotFound": 0,
+	"github.com/crossplane/crossplane-runtime/pkg/resource.Ignore":         1,
+	"github.com/crossplane/crossplane-runtime/pkg/resource.IgnoreAny":      0,
+	"sigs.k8s.io/controller-runtime/pkg/client.IgnoreNotFound":             0,
+	"sigs.k8s.io/controller-runtime/pkg/client.IgnoreAlreadyExists":        0,
+}
+
 type fact struct {
 	v   ssa.Value
 	val absval
@@ -203,6 +212,15 @@ func buildInfo(fn *ssa.Function) *fnInfo {
 				val = tv.flip()
 			}
 			fi.facts[v] = append(fi.facts[v], fact{v, val, s})
+			// a filter returns nil or its error argument: non-nil result => non-nil argument
+			if val == nonzero {
+				if fc, ok := v.(*ssa.Call); ok {
+					if ai, isFilter := errFilterArg[CalleeName(fc)]; isFilter && ai < len(fc.Call.Args) {
+						a := unwrap(fc.Call.Args[ai])
+						fi.facts[a] = append(fi.facts[a], fact{a, nonzero, s})
+					}
+				}
+			}
 			if k, ok := purePred(v); ok {
 				fi.pfacts[k] = append(fi.pfacts[k], fact{v, val, s})
 			}
